@@ -792,6 +792,9 @@ func (g *gen) invalidLine() Line {
 	if g.noMissingMeas && g.next("more-ts-oor", 4) == 0 {
 		kind = "ts-out-of-range"
 	}
+	if !g.parserOnly && g.next("more-ts-oor-all", 6) == 5 {
+		kind = "ts-out-of-range"
+	}
 	ln := Line{ID: g.newID(), Kind: kInvalid, Why: kind}
 	ts := strconv.FormatInt((recentBase*1e9+r.Int64N(400000*1e9))/precMult(g.prec), 10)
 	head := g.meas + ",u=" + ln.ID
@@ -834,11 +837,25 @@ func (g *gen) invalidLine() Line {
 		// once multiplied by the precision)
 		m := precMult(g.prec)
 		var v string
-		which := g.next("tsoor", 4)
+		which := g.next("tsoor", 6)
 		if m > 1 && g.next("tsoor-wrap", 2) == 0 {
 			which = 2
 		}
+		if m == 1 && g.next("tsoor-rawwrap", 2) == 0 {
+			which = 4 + g.next("tsoor-rawwrap-kind", 2)
+		}
 		switch which {
+		case 4:
+			// the digits themselves wrap around 64 bits into the supported range when they
+			// are converted unchecked: k * 2^64 + a recent time
+			k := []int64{1, 2, 3, 5, 10, 1000}[g.next("tsoor-k", 6)]
+			w := new(big.Int).Mul(new(big.Int).Lsh(big.NewInt(1), 64), big.NewInt(k))
+			w.Add(w, big.NewInt(recentBase*1e9/m+r.Int64N(1000)))
+			v = w.String()
+		case 5:
+			v = pick("20000000000000000000", "40000000000000000000", "60000000000000000000", "80000000000000000000",
+				"18446744073709551616", "18446744073709551716", "27670116110564327420", "36893488147419103232000",
+				"10000000000000000000", "99999999999999999999", "100000000000000000000", "1"+strings.Repeat("0", 30))
 		case 0:
 			v = strconv.FormatInt(maxNano/m+1, 10)
 		case 1:
